@@ -93,6 +93,7 @@ void h_qltlv(void) {
         V_ASSERT(g_live_blocks == live0, "C19: nothing retained for an ignored request");
     } else {
         V_ASSERT(g_nsend == 1 && q_seen, "C08: exactly one QueryLargeTlvResp per request");
+        assert_mapp_step(ST);
         if (!in.st.known) V_ASSERT(ST->mapper_known == 1 && mac6_eq(ST->mapper_real.a, in.frame + F_RSRC), "C03,C05: a QueryLargeTlv that opens the session makes its real source the mapper (later Discovers from it are the accepted ones)");
         else if (dom05) V_ASSERT(ST->mapper_known == 1 && mac6_eq(ST->mapper_real.a, in.st.mreal), "C05: a QueryLargeTlv from the active mapper leaves the mapper unchanged");
         bool newly_cached = (q_type == 0x0E) && !had_cache && !g_plat.icon_fail;
